@@ -472,6 +472,8 @@ func c12Run(t *testing.T, mcs int, hist []c12Ev, verbose bool) (res c12Res) {
 			logPos   int
 			seenCall int
 			dead     bool
+			goAway   bool   // the server sent GOAWAY ...
+			goAwayID uint32 // ... promising to ignore streams above this id (RFC 7540 6.8)
 		)
 		// settle consumes the frames the server sent since the last call.
 		settle := func() (newFrames []wire.Frame) {
@@ -486,6 +488,15 @@ func c12Run(t *testing.T, mcs int, hist []c12Ev, verbose bool) (res c12Res) {
 					}
 				case "RST_STREAM":
 					delete(open, f.Stream)
+				case "GOAWAY":
+					if !goAway || f.LastID < goAwayID {
+						goAway, goAwayID = true, f.LastID
+					}
+					for id := range open {
+						if id > goAwayID {
+							delete(open, id) // implicitly refused
+						}
+					}
 				}
 			}
 			if peer.Closed() {
@@ -549,6 +560,11 @@ func c12Run(t *testing.T, mcs int, hist []c12Ev, verbose bool) (res c12Res) {
 						// blocks the server had to reject as malformed HTTP/2 (own class:
 						// grpc-go is known to forget those ids)
 						rq.forbid = append([]string{"illegal-stream-id:reused-after-malformed-HEADERS"}, rq.forbid...)
+					} else if goAway && ev.ID > goAwayID {
+						// the server announced that it ignores such streams: it is not
+						// open in the client's state machine and must not be served
+						maxHdrID = ev.ID
+						rq.forbid = append([]string{"after-GOAWAY"}, rq.forbid...)
 					} else {
 						maxHdrID = ev.ID
 						if !c12H2Malformed(fields) {
